@@ -122,6 +122,8 @@ class LinBinding:
                 feats = {self.lm[a]: [float(v) for v in f] for a, f in (feat or {}).items() if self.lm[a] in mab.arms}
                 return "ok", mab.warm_start(feats, float(q))
             if op in ("predict", "predict_expectations"):
+                rowsX = label["X"] if "X" in label else self.contexts(label.get("m", 1))
+                label = dict(label, X=rowsX)
                 X = [[float(v) for v in x] for x in label["X"]]
                 self.d = len(X[0])
                 if self.ctx_dtype == "float64":
